@@ -220,3 +220,12 @@ package datastore
 //@   loop 7 invariant updates_after_starts_missing_clients: midCycle(old(ntrace()), dm) && $n_loop6 >= 0 && $n_loop6 < $len_loop6
 //@   loop 8 invariant ends_last: ntrace() >= old(ntrace()) && allAtMost(old(ntrace()), ntrace(), 2) && ordered(old(ntrace()), ntrace()) && startedIfClients(old(ntrace()), dm) &&
 //@            (len($visited) > 0 ==> devPhase(emitted(ntrace() - 1)) == 2)
+
+// the order in which the intents of one path are ranked: priority value first, then timestamp (strict, so the ruling
+// intent is the one with the lowest priority value, the oldest among equals)
+//@ func (*Datastore).runDeviationUpdate$1
+//@   props C15
+//@   requires 0 <= i && i < len(intentsUpdates) && 0 <= j && j < len(intentsUpdates) && intentsUpdates[i] != nil && intentsUpdates[j] != nil
+//@   modifies nothing
+//@   ensures by_priority_then_age: result == (intentsUpdates[i].priority < intentsUpdates[j].priority ||
+//@            (intentsUpdates[i].priority == intentsUpdates[j].priority && intentsUpdates[i].ts < intentsUpdates[j].ts))
